@@ -461,15 +461,43 @@ fn slice_val<S: SliceX>(s: S) -> Val {
 /// chumsky::text parsers over any StrInput kind (gram::G::Text, k < 9; k == 7 is `newline()` on
 /// character inputs — it does not exist for byte inputs in this commit, `&str: OrderedSeq<u8>` is
 /// missing — and `inline_whitespace().count()` there).
+/// keyword literal for `text::ascii::keyword`: comparable with every slice type and usable as an
+/// expected-pattern of `Rich`
+#[derive(Clone, Debug)]
+pub struct Kw(pub &'static str);
+impl PartialEq<&[u8]> for Kw {
+    fn eq(&self, o: &&[u8]) -> bool {
+        self.0.as_bytes() == *o
+    }
+}
+impl PartialEq<&str> for Kw {
+    fn eq(&self, o: &&str) -> bool {
+        self.0 == *o
+    }
+}
+impl PartialEq<bytes::Bytes> for Kw {
+    fn eq(&self, o: &bytes::Bytes) -> bool {
+        self.0.as_bytes() == &o[..]
+    }
+}
+impl<'a, T> From<Kw> for chumsky::error::RichPattern<'a, T> {
+    fn from(k: Kw) -> Self {
+        chumsky::error::RichPattern::Label(std::borrow::Cow::Borrowed(k.0))
+    }
+}
+pub const KEYWORDS: [&str; 2] = ["ab", "_a7"];
+
 pub fn mk_text<'a, I>(k: u8, newline: Option<BP<'a, I>>) -> BP<'a, I>
 where
     I: StrInput<'a>,
-    I::Slice: SliceX,
+    I::Slice: SliceX + PartialEq,
+    Kw: PartialEq<I::Slice>,
     I::Token: Tok,
     I::Span: SpanX,
 {
     use chumsky::text;
     match k {
+        13 | 14 => text::ascii::keyword::<I, Kw, Ex<'a, I>>(Kw(KEYWORDS[(k - 13) as usize])).map(slice_val::<I::Slice>).boxed(),
         0 => text::ascii::ident().map(slice_val::<I::Slice>).boxed(),
         1 => text::unicode::ident().map(slice_val::<I::Slice>).boxed(),
         2 => text::int(10).map(slice_val::<I::Slice>).boxed(),
@@ -495,7 +523,8 @@ where
     chumsky::text::newline().to_span().map(|s: I::Span| Val::OnlySpan(s.norm())).boxed()
 }
 
-pub const REGEXES: [&str; 2] = ["[a-c]+[07]*", "[^ \\n0]+"];
+/// the last two are sensitive to what precedes the cursor (an ASCII word boundary, a multi-line anchor)
+pub const REGEXES: [&str; 4] = ["[a-c]+[07]*", "[^ \\n0]+", "(?-u:\\b)[a-d]+", "(?m)^[a-h]+"];
 
 /// regex(..) needs a StrInput whose slices are borrowed (`&str`, `&[u8]`): InputRef::full_slice + skip_bytes.
 pub fn mk_regex<'a, I, S>(k: u8) -> BP<'a, I>
@@ -601,13 +630,13 @@ macro_rules! cap_fns {
     // byte StrInput with borrowed slices
     (text_u8) => {
         fn text(k: u8) -> Option<BP<'a, Self>> {
-            Some(if k >= 9 { mk_regex::<Self, [u8]>(k) } else { mk_text::<Self>(k, None) })
+            Some(if (9..=12).contains(&k) { mk_regex::<Self, [u8]>(k) } else { mk_text::<Self>(k, None) })
         }
     };
     // byte StrInput whose slice type is owned (bytes::Bytes): no regex
     (text_owned) => {
         fn text(k: u8) -> Option<BP<'a, Self>> {
-            if k >= 9 {
+            if (9..=12).contains(&k) {
                 None
             } else {
                 Some(mk_text::<Self>(k, None))
@@ -663,7 +692,7 @@ macro_rules! cap_fns {
     };
     (text_str) => {
         fn text(k: u8) -> Option<BP<'a, Self>> {
-            Some(if k >= 9 { mk_regex::<Self, str>(k) } else { mk_text::<Self>(k, Some(mk_newline::<Self>())) })
+            Some(if (9..=12).contains(&k) { mk_regex::<Self, str>(k) } else { mk_text::<Self>(k, Some(mk_newline::<Self>())) })
         }
     };
 }
